@@ -3,4 +3,5 @@ package eng
 
 import (
 	_ "aaverif/eng/hist"
+	_ "aaverif/eng/outdir"
 )
